@@ -1,8 +1,11 @@
 (* C17 - the XSD dialect rejects XPath extensions and agrees on the common subset.
    Proved: the flag half (flag q is rejected in the XSD dialect; every other flag string is treated
-   as in the XPath dialect).  Partial: the pattern half (P1/P2) is carried by the correspondence
-   against the three-valued grammar and by the both-dialects comparison. *)
-From RX Require Import Base.Prelude Spec.Syntax Spec.Parse Model.Compiler Proofs.SmallFacts.
+   as in the XPath dialect); and the parser steps on which the dialects differ: '^' and '$' become
+   anchors under XPath and go to the atom scanner like any character under XSD; '(?:' and the escape
+   '\$' are accepted under XPath and are syntax errors under XSD.  Partial: the rest of the pattern
+   half (P1/P2; reluctant quantifiers, back-references) is carried by the correspondence against the
+   three-valued grammar and by the both-dialects comparison. *)
+From RX Require Import Base.Prelude Spec.Syntax Spec.Parse Model.Op Model.Compiler Proofs.SmallFacts Proofs.DialectFacts.
 
 Theorem C17_flags :
   forall (s : list N), existsb (N.eqb 59) s = false ->
@@ -35,5 +38,28 @@ Proof.
   destruct (parse_flags false s) as [fl|e| |]; try contradiction. destruct e; try contradiction. reflexivity.
 Qed.
 
+Theorem C17_caret_dollar_by_dialect_partial :
+  forall pat ci single xpath fuel st,
+    (at_ pat (idx st) = Some 94%N ->
+       parse_terminal pat xpath ci single (S fuel) st = if xpath then Ok (OBol, adv 1 st) else parse_atom pat xpath st)
+    /\ (at_ pat (idx st) = Some 36%N ->
+       parse_terminal pat xpath ci single (S fuel) st = if xpath then Ok (OEol, adv 1 st) else parse_atom pat xpath st).
+Proof. intros. split; [apply terminal_caret|apply terminal_dollar]. Qed.
+
+Theorem C17_noncapturing_rejected_in_xsd_partial :
+  forall pat ci single fuel st, at_ pat (idx st) = Some 40%N ->
+    Nat.ltb (idx st + 2) (length pat) = true -> is_at pat (idx st + 1) 63 = true -> is_at pat (idx st + 2) 58 = true ->
+    parse_expr pat false ci single (S fuel) false st = Err ESyntax.
+Proof. exact noncapturing_xsd. Qed.
+
+Theorem C17_escaped_dollar_by_dialect_partial :
+  forall pat xpath in_sq st, at_ pat (idx st) = Some 92%N -> Nat.leb (length pat) (idx st + 1) = false ->
+    at_ pat (idx st + 1) = Some 36%N ->
+    escape pat xpath in_sq st = if xpath then Ok (EChar 36, adv 2 st) else Err ESyntax.
+Proof. exact escape_dollar. Qed.
+
 Print Assumptions C17_flags.
 Print Assumptions C17_q_rejected.
+Print Assumptions C17_caret_dollar_by_dialect_partial.
+Print Assumptions C17_noncapturing_rejected_in_xsd_partial.
+Print Assumptions C17_escaped_dollar_by_dialect_partial.
